@@ -11,6 +11,11 @@ package sign
 //@   requires r.RPrime != nil && r.RProof != nil && zksch.shapedProof(r.RProof) && r.MulMsg0 != nil && r.MulMsg1 != nil && r.MulMsg2 != nil && r.MuPhi != nil && r.MuSig != nil
 //@   assert_at[C01] ResultRound "return r.ResultRound(&sig)": ecdsa_valid(sig.R, sig.S, r.config.Public, r.hash)
 //@   assert_at[C01] ResultRound "return r.ResultRound(&sig)": typeis(arg1, *ecdsa.Signature) && arg1.(*ecdsa.Signature).R == sig.R && arg1.(*ecdsa.Signature).S == sig.S
+// refinement of the interface contract of round.Round.Finalize (what the handler relies on)
+//@   ensures !closed(out)
+//@   ensures result1 == nil ==> result0 != nil
+//@   ensures typeis(result0, *round.Abort) ==> result0.(*round.Abort).Err != nil
+//@   ensures typeis(result0, *round.Output) ==> result0.(*round.Output).Result != nil
 
 // Sender: a received signature is accepted only if valid for (config.Public, hash); the stored signature is the
 // verified one; the result is the stored one (StoreMessage runs only after VerifyMessage accepted: C03 handler gate).
@@ -29,8 +34,13 @@ package sign
 //@   ensures[C01,C03] r.Sig.R == body.Sig.R && r.Sig.S == body.Sig.S
 //@ func (*round2S).Finalize
 //@   nopanic[C05]
-//@   requires r != nil && r.round1S != nil && r.Helper != nil
+//@   requires r != nil && r.round1S != nil && r.Helper != nil && out != nil && !closed(out)
 //@   assert_at[C01] ResultRound "return r.ResultRound(&r.Sig)": typeis(arg1, *ecdsa.Signature) && arg1.(*ecdsa.Signature) == r.Sig
+// refinement of the interface contract of round.Round.Finalize (what the handler relies on)
+//@   ensures !closed(out)
+//@   ensures result1 == nil ==> result0 != nil
+//@   ensures typeis(result0, *round.Abort) ==> result0.(*round.Abort).Err != nil
+//@   ensures typeis(result0, *round.Output) ==> result0.(*round.Output).Result != nil
 
 // ---- start functions (C20): no session without complete key material and a non-empty message hash
 //@ func StartSignReceiver$1
@@ -93,6 +103,16 @@ package sign
 //@   nopanic[C05]
 //@   requires s1rok(r) && out != nil && !closed(out)
 //@   ensures result1 == nil ==> (typeis(result0, *round2R) && s2rok(result0.(*round2R)))
+// refinement of the interface contract of round.Round.Finalize (what the handler relies on)
+//@   ensures !closed(out)
+//@   ensures result1 == nil ==> result0 != nil
+//@   ensures typeis(result0, *round.Abort) ==> result0.(*round.Abort).Err != nil
+//@   ensures typeis(result0, *round.Output) ==> result0.(*round.Output).Result != nil
 //@ func (*round1S).Finalize
 //@   nopanic[C05]
 //@   requires s1sok(r) && out != nil && !closed(out) && len(r.hash) > 0 && r.D != nil && r.mulMsg0 != nil && r.mulMsg1 != nil && r.mulMsg2 != nil
+// refinement of the interface contract of round.Round.Finalize (what the handler relies on)
+//@   ensures !closed(out)
+//@   ensures result1 == nil ==> result0 != nil
+//@   ensures typeis(result0, *round.Abort) ==> result0.(*round.Abort).Err != nil
+//@   ensures typeis(result0, *round.Output) ==> result0.(*round.Output).Result != nil
